@@ -23,9 +23,9 @@ func init() {
 		},
 		NumCases: func(tier string) int {
 			if tier == "thorough" {
-				return 6000
+				return 40000
 			}
-			return 420
+			return 2500
 		},
 		Run:         runC01,
 		CaseTimeout: 0,
@@ -42,6 +42,7 @@ func runC01(c *core.Ctx, res *core.Result) {
 	o := kv.GenOpts{NOps: nops, NKeys: r.Range(4, 24), BigValues: r.Chance(25), Maintenance: r.Range(3, 14),
 		CompactRange: r.Chance(20), Retire: true, Reopen: true, Tx: true, Batch: true}
 	ks := kv.GenKeySpace(r, o.NKeys)
+	ks.Locality = r.Chance(30)
 	prog := kv.GenProgram(r, ks, fmt.Sprintf("c%d", c.Idx), o)
 	x, err := kv.NewExec(c.Dir+"/db", cfg, res, r)
 	if err != nil {
